@@ -1,12 +1,15 @@
 import Nervus.Driver.Util
 import Nervus.Driver.OKey
 import Nervus.Driver.ExtId
+import Nervus.Driver.Capi
 open Nervus.Driver
 
 /-- stream registry: one line per stream (kept one-per-line so that merges are unions) -/
 def streams : List (String × Stream) := [
   ("okey", OKeyStream.stream),
-  ("extid", ExtIdStream.stream)
+  ("extid", ExtIdStream.stream),
+  ("capi", CapiStream.stream),
+  ("capiryw", CapiStream.streamRyw)
 ]
 
 def main (args : List String) : IO UInt32 := do
